@@ -8,6 +8,7 @@
 //   thread <i>: prod <N> ;       N pushes
 //   thread <i>: cons [K] ;       pops until all producers are done AND a pop failed afterwards (or K pops succeeded)
 //   thread <i>: mix <N> ;        N times: one push, then one pop attempt
+//   thread <i>: mixprod <K> <N> ; K times push+pop, then N pushes (index growth of a wrapped block index)
 //   thread <i>: ucons ;          (mode 1) like cons, but with the move loop's unguarded pop
 //   endcase
 //
@@ -241,7 +242,7 @@ namespace {
         actor& me = actors[T];
         int nprod = 0;
         for (auto const& t : c.threads)
-            if (!t.empty() && (t[0].name == "prod" || t[0].name == "mix")) ++nprod;
+            if (!t.empty() && (t[0].name == "prod" || t[0].name == "mix" || t[0].name == "mixprod")) ++nprod;
 
         // phase 0: single-threaded prefill
         long long pre = c.geti("pre", 0);
@@ -276,6 +277,24 @@ namespace {
                         q.push(a, a.fresh());
                         g_pushes_done.fetch_add(1);
                         q.pop(a, false);
+                    }
+                    g_producers_done.fetch_add(1);
+                }
+                else if (op.name == "mixprod")
+                {
+                    // n times push+pop (blocks get consumed, the producer's block index ring advances), then a backlog of
+                    // args[1] pushes by the same producer
+                    long long m = op.args.size() > 1 ? op.args[1] : 0;
+                    for (long long k = 0; k < n; ++k)
+                    {
+                        q.push(a, a.fresh());
+                        g_pushes_done.fetch_add(1);
+                        q.pop(a, false);
+                    }
+                    for (long long k = 0; k < m; ++k)
+                    {
+                        q.push(a, a.fresh());
+                        g_pushes_done.fetch_add(1);
                     }
                     g_producers_done.fetch_add(1);
                 }
